@@ -2,3 +2,5 @@ import LouModel.Basic
 import LouModel.PosMap
 import LouModel.Driver
 import LouModel.Proto
+import LouModel.Gen.MetaConsts
+import LouModel.Meta
